@@ -1,3 +1,33 @@
 import Driver.Loop
 import Driver.C09Ops
-def main : IO Unit := Driver.run Driver.c09Ops
+open Driver
+
+/-- the reply line with every non-ASCII character written as a JSON `\uXXXX` escape (they occur inside
+strings only): the harness reads replies with `str.splitlines()`, which would cut a line at a raw
+U+0085 / U+2028 / U+2029 of a text label. -/
+def asciiJson (s : String) : String :=
+  let hex := fun (n : Nat) =>
+    let ds := Nat.toDigits 16 n
+    String.ofList ("\\u".toList ++ List.replicate (4 - ds.length) '0' ++ ds)
+  String.join (s.toList.map fun c =>
+    let n := c.toNat
+    if n < 0x7f then String.singleton c
+    else if n < 0x10000 then hex n
+    else
+      let m := n - 0x10000
+      hex (0xD800 + m / 0x400) ++ hex (0xDC00 + m % 0x400))
+
+partial def loop9 (hin hout : IO.FS.Stream) : IO Unit := do
+  let line ← hin.getLine
+  if line.isEmpty then return ()
+  let l := line.trimAscii.toString
+  if l.isEmpty then loop9 hin hout
+  else
+    hout.putStrLn (asciiJson (handleLine c09Ops l))
+    loop9 hin hout
+
+def main : IO Unit := do
+  let hin ← IO.getStdin
+  let hout ← IO.getStdout
+  loop9 hin hout
+  hout.flush
